@@ -79,6 +79,12 @@ func (c *Case) Range(lo, hi int, label string) int {
 // Chance is true with probability num/den.
 func (c *Case) Chance(num, den int, label string) bool { return c.T.Draw(den, label) < num }
 
+// ChanceAdded is Chance for a branch that was added to a generator after replay files had been written: replaying a
+// file that does not know the label takes the old path (false) without consuming a tape value.
+func (c *Case) ChanceAdded(num, den int, label string) bool {
+	return c.T.DrawOptional(den, label, den-1) < num
+}
+
 // Rand returns a PRNG whose seed is drawn from the tape; used to expand bulk
 // data (blob bytes) without putting every byte on the tape.
 func (c *Case) Rand(label string) *rand.Rand {
@@ -329,6 +335,9 @@ func Main(t *testing.T, chk *Check) {
 	case "replay":
 		rp := loadReplay(t, cfg.TapeFile)
 		tape := simrt.ReplayTape(rp.Tape)
+		if len(rp.Labels) > 0 {
+			tape.Expect = rp.Labels
+		}
 		c := runCase(t, chk, tape, rp.CaseSeed, cfg, res, true)
 		if c.harnessErr != "" {
 			res.Errors = append(res.Errors, c.harnessErr)
